@@ -164,14 +164,39 @@ func canaryListGrowth(r *sim.Record) []V {
 	if pre.Status.Canary != nil {
 		preLen = len(pre.Status.Canary.Nodes)
 	}
+	// "the number of nodes the ExtendedDaemonSet targets": the nodes eligible for the active template (or, whichever
+	// is larger, for the new one). status.desired is deliberately not a base: during a canary it can transiently count
+	// the canary nodes twice (active set not yet synced with the node list).
 	max := preLen
-	for _, b := range replicaBases(r, pre) {
-		if n, ok := oracle.Resolve(pre.Spec.Strategy.Canary.Replicas, b); ok && n > max {
-			max = n
+	strict := 0
+	rss := ownRS(r.Pre, pre)
+	bases := []int{eligibleCount(r.Pre, &pre.Spec.Template)}
+	if a := byName(rss, pre.Status.ActiveReplicaSet); a != nil {
+		bases = append(bases, eligibleCount(r.Pre, &a.Spec.Template))
+	}
+	for _, b := range bases {
+		if n, ok := oracle.Resolve(pre.Spec.Strategy.Canary.Replicas, b); ok && n > strict {
+			strict = n
 		}
 	}
+	if strict > max {
+		max = strict
+	}
 	if len(post.Status.Canary.Nodes) > max {
-		return []V{{"C04", "canary-list-growth", "C04/canary-list-growth", fmt.Sprintf("status.canary.nodes grew from %d to %d entries %v although canary.replicas=%s resolves to at most %d", preLen, len(post.Status.Canary.Nodes), post.Status.Canary.Nodes, pre.Spec.Strategy.Canary.Replicas.String(), max)}}
+		sig := "C04/canary-list-growth"
+		if pre.Spec.Strategy.Canary.Replicas.Type == 1 {
+			lenient := 0
+			for _, b := range replicaBases(r, pre) {
+				if n, ok := oracle.Resolve(pre.Spec.Strategy.Canary.Replicas, b); ok && n > lenient {
+					lenient = n
+				}
+			}
+			if len(post.Status.Canary.Nodes) <= lenient {
+				sig = "C15/canary-list-growth/percent-base-inflated"
+			}
+		}
+		prop := sig[:3]
+		return []V{{prop, "canary-list-growth", sig, fmt.Sprintf("status.canary.nodes grew from %d to %d entries %v although canary.replicas=%s of the %v targeted nodes resolves to at most %d (status.desired as read: %d)", preLen, len(post.Status.Canary.Nodes), post.Status.Canary.Nodes, pre.Spec.Strategy.Canary.Replicas.String(), bases, strict, pre.Status.Desired)}}
 	}
 	return nil
 }
